@@ -13,35 +13,48 @@ open TH.Lts.Seq
     in issue (= request) order, of what each writer submitted.  Bytes of different responses are
     never interleaved and never reordered. -/
 theorem seq_order (s : State) (h : Reachable s) : s.sock ++ s.buf = inOrder s := by
-  sorry
+  exact (inv_reachable h).order
 
 /-- a writer has submitted something only if every earlier writer has been dropped (its
     response is complete): a later response never starts before an earlier one ended. -/
 theorem no_overtaking (s : State) (h : Reachable s) (i : Nat) (hi : i < s.writers.length)
     (hs : (s.writers.getD i {}).submitted ≠ []) : ∀ j, j < i → isDropped s j = true := by
-  sorry
+  exact (inv_reachable h).noOver i hi hs
 
 /-- …and a dropped writer also means all earlier ones are dropped (with the repaired `Drop`,
     which waits for its turn: an untouched writer cannot let its successor overtake). -/
 theorem dropped_prefix_closed (s : State) (h : Reachable s) (i : Nat) (hd : isDropped s i = true) :
     ∀ j, j < i → isDropped s j = true := by
-  sorry
+  exact (inv_reachable h).pref i hd
 
 /-- what reached the socket is always a prefix of the in-order concatenation. -/
 theorem sock_is_prefix (s : State) (h : Reachable s) : ∃ rest, inOrder s = s.sock ++ rest := by
-  sorry
+  exact ⟨s.buf, (seq_order s h).symm⟩
 
 /-- after a flush everything submitted so far is on the socket. -/
 theorem flush_delivers (s s' : State) (h : Reachable s) (i : Nat) (hs : step s (.flush i) = some s') :
     s'.sock = inOrder s' ∧ s'.buf = [] := by
-  sorry
+  have ho := seq_order s h
+  simp only [step] at hs
+  split at hs
+  · simp only [Option.some.injEq] at hs
+    subst hs
+    refine ⟨?_, rfl⟩
+    simpa [inOrder] using ho
+  · cases hs
 
 /-- No deadlock, nobody held up: the earliest writer that is not yet dropped always has its turn
     — it can write, flush and be dropped whatever the others do; in particular dropping a request
     (500) or a raw writer releases the next response. -/
 theorem first_alive_has_turn (s : State) (h : Reachable s) (m : Nat) (hm : m < s.writers.length)
     (ha : isDropped s m = false) (hmin : ∀ j, j < m → isDropped s j = true) : hasTurn s m = true := by
-  sorry
+  have _ := h
+  unfold hasTurn
+  simp only [Bool.and_eq_true, decide_eq_true_eq, Bool.not_eq_true', Bool.or_eq_true, beq_iff_eq]
+  refine ⟨⟨hm, ha⟩, ?_⟩
+  by_cases h0 : m = 0
+  · exact Or.inl h0
+  · exact Or.inr (hmin (m - 1) (by omega))
 
 example : (run {} [.issue, .issue, .write 0 [1, 2], .sock 1, .drop 0, .write 1 [3], .flush 1]).map
     (fun s => (s.sock, s.buf)) = some ([1, 2, 3], []) := by decide
